@@ -65,6 +65,23 @@ func buildOverlay(extra map[string][]byte) (map[string][]byte, error) {
 			dirs[filepath.Dir(p)] = string(mm[1])
 		}
 	}
+	// shared helper files: _lib/zz_verif_common_*.go with a first line "// inject: dir dir ..." ("." = module root)
+	commons, _ := filepath.Glob(filepath.Join(root, "_lib", "zz_verif_common_*.go"))
+	for _, cf := range commons {
+		cb, err := os.ReadFile(cf)
+		if err != nil {
+			return nil, err
+		}
+		first := strings.SplitN(string(cb), "\n", 2)[0]
+		if !strings.HasPrefix(first, "// inject:") {
+			continue
+		}
+		for _, d := range strings.Fields(strings.TrimPrefix(first, "// inject:")) {
+			if pkg, ok := dirs[d]; ok {
+				ov[filepath.Join(repoDir, d, filepath.Base(cf))] = []byte(strings.Replace(string(cb), "package PKGNAME", "package "+pkg, 1))
+			}
+		}
+	}
 	for d, pkg := range dirs {
 		ov[filepath.Join(repoDir, d, "zz_verif_lib.go")] = []byte(strings.Replace(string(lib), "package PKGNAME", "package "+pkg, 1))
 	}
